@@ -9,7 +9,11 @@ package transmit
 // (Stop touches the table without the lock on purpose: it first closes `stop` and waits for the dispatcher,
 // and the caller's contract is that nothing is enqueued after Stop - that protocol is not a lock obligation.)
 // registerMetrics is the part of Start that fills metricKeys, before any goroutine of the transmission exists.
-//@ lockdiscipline transmit.DirectTransmission batchMutex props C35 skip: Start, Stop, registerMetrics
+//@ lockdiscipline transmit.DirectTransmission batchMutex props C35,C19,C26 skip: Start, Stop, registerMetrics
+// C19 / C26 (every accepted event is handled exactly once): the table only ever gains entries while the transmission
+// runs - a batch that is registered is never replaced, or the events already in it would never be sent. A presence
+// test made in an earlier critical section does not count (other goroutines enqueue concurrently).
+//@ insertonly transmit.DirectTransmission.eventBatches
 //@ guarded_by transmit.eventBatch.mutex: events, startTime
 //@ lockdiscipline transmit.eventBatch mutex props C35
 
